@@ -38,7 +38,9 @@ pub fn history_for(cfg: &Cfg, h: u64) -> (usize, Vec<KOp>, &'static str) {
         Some(name) => profs.iter().filter(|p| name.split(',').any(|n| n == p.name)).collect(),
         None => profs.iter().collect(),
     };
-    let p = sel[(h % sel.len() as u64) as usize];
+    // the profile is drawn from the history index through a hash, so that every shard (h = shard +
+    // k * nshards) sees every profile equally often whatever the number of profiles
+    let p = sel[(crate::util::mix(h, 0x50524F46) % sel.len() as u64) as usize];
     let mut rng = Rng::new(cfg.seed).derive(0x4B45_59).derive(h);
     let mut p = p.clone();
     if cfg.flag("noexport") {
